@@ -125,6 +125,8 @@ pub fn gen_from_seed(gseed: u64, with_bug: bool, r: &mut Rng, scale: usize) -> B
                 "many-frames-high-layer" => *r.pick(&[2usize, 20]),
                 "many-tags" => *r.pick(&[10usize, 1000]),
                 "deflate-bomb" => 1,
+                "link-chain" => *r.pick(&[3usize, 40, 700]),
+                "bomb-with-links" => *r.pick(&[1usize, 2]),
                 _ => 1,
             }
         };
@@ -179,7 +181,7 @@ pub enum JobKind {
     /// BLOCK random runs; sub = index in block
     Random { first_run: u64 },
     /// every (field, value) cell of one base
-    Cells { base: Base, cells: Vec<(usize, u64)>, fields: Vec<format::Field> },
+    Cells { base: Base, cells: Vec<(usize, u64)>, pairs: Vec<[(usize, u64); 2]>, fields: Vec<format::Field> },
     /// every cut of one base (C13); `variants` extra sampled reader variants
     Cuts { base: Base, cuts: Vec<usize>, variants: Vec<(usize, u8)> },
     /// every hard-error offset x kind of one base (C14)
@@ -354,7 +356,38 @@ fn cells_job(base: Base, inflate_only: bool) -> JobKind {
             }
         }
     }
-    JobKind::Cells { base, cells, fields }
+    // C12 only: pairs of container-level size fields inflated together (frame size x chunk
+    // count x chunk size x frame count), because a bound derived from one declared field may be
+    // "checked" only against another declared field.
+    let mut pairs = Vec::new();
+    if inflate_only {
+        let container: Vec<usize> = fields
+            .iter()
+            .enumerate()
+            .filter(|(_, f)| matches!((f.chunk, f.name), ("header", "frames") | ("header", "file-size") | ("frame", "frame-bytes") | ("frame", "old-chunks") | ("frame", "new-chunks") | ("chunk", "chunk-size")))
+            .map(|(i, _)| i)
+            .take(14)
+            .collect();
+        for a in 0..container.len() {
+            for b in a + 1..container.len() {
+                let (fa, fb) = (&fields[container[a]], &fields[container[b]]);
+                let vals = |f: &format::Field| -> Vec<u64> {
+                    let max = (1u64 << (8 * f.width)) - 1;
+                    if f.width >= 4 {
+                        vec![max, 1 << 29, (1 << 24) + 1]
+                    } else {
+                        vec![max, max / 2 + 1]
+                    }
+                };
+                for va in vals(fa) {
+                    for vb in vals(fb) {
+                        pairs.push([(container[a], va), (container[b], vb)]);
+                    }
+                }
+            }
+        }
+    }
+    JobKind::Cells { base, cells, pairs, fields }
 }
 
 fn cuts_job(base: Base, seed: u64) -> JobKind {
@@ -419,6 +452,13 @@ fn special_items(ctx: &Ctx, prop: &str) -> Vec<(String, usize)> {
             for n in if q { vec![1000usize] } else { vec![1000, 30_000, 65_535] } {
                 v.push(("many-tags".into(), n));
             }
+            for n in if q { vec![8usize, 32] } else { vec![8, 16, 32, 48, 64] } {
+                v.push(("bomb-with-links".into(), n));
+                v.push(("bomb-with-links".into(), n));
+            }
+            for n in if q { vec![5000usize] } else { vec![5000, 65_535] } {
+                v.push(("link-chain".into(), n));
+            }
             for n in if q { vec![2000usize] } else { vec![2000, 20_000, 60_000] } {
                 v.push(("many-layers".into(), n));
                 v.push(("deep-nesting".into(), n));
@@ -445,6 +485,12 @@ fn special_items(ctx: &Ctx, prop: &str) -> Vec<(String, usize)> {
             for n in if q { vec![50usize] } else { vec![50, 2000] } {
                 v.push(("many-frames-high-layer".into(), n));
             }
+            for n in if q { vec![9000usize, 9000, 9000, 9000] } else { vec![9000, 9000, 30_000, 30_000, 65_535, 65_535, 65_535, 65_535] } {
+                v.push(("link-chain".into(), n));
+            }
+            for _ in 0..if q { 8 } else { 60 } {
+                v.push(("sparse-palette-gap".into(), 1));
+            }
             // renders whose extent exceeds i32: only where they finish in seconds (optimised build)
             if prop == "C05" {
                 for _ in 0..if q { 1 } else { 4 } {
@@ -452,7 +498,7 @@ fn special_items(ctx: &Ctx, prop: &str) -> Vec<(String, usize)> {
                 }
             }
             for b in spec::BUGS {
-                if !matches!(*b, "deep-nesting" | "many-layers" | "many-tags" | "many-frames-high-layer" | "deflate-bomb" | "tilemap-huge-extent") {
+                if !matches!(*b, "deep-nesting" | "many-layers" | "many-tags" | "many-frames-high-layer" | "deflate-bomb" | "tilemap-huge-extent" | "link-chain" | "bomb-with-links") {
                     for _ in 0..if q { 2 } else { 12 } {
                         v.push((b.to_string(), 1));
                     }
@@ -467,7 +513,7 @@ impl Job {
     pub fn len(&self) -> u64 {
         match &self.kind {
             JobKind::Random { .. } => BLOCK,
-            JobKind::Cells { cells, .. } => cells.len() as u64,
+            JobKind::Cells { cells, pairs, .. } => (cells.len() + pairs.len()) as u64,
             JobKind::Cuts { cuts, variants, .. } => (cuts.len() + variants.len()) as u64,
             JobKind::ErrMatrix { n, .. } => (*n * ERR_KINDS.len()) as u64,
             JobKind::Special { items } => items.len() as u64,
@@ -478,7 +524,7 @@ impl Job {
     pub fn describe(&self) -> String {
         match &self.kind {
             JobKind::Random { first_run } => format!("random runs {}..{}", first_run, first_run + BLOCK),
-            JobKind::Cells { base, cells, .. } => format!("{} field cells of {}", cells.len(), base.desc),
+            JobKind::Cells { base, cells, pairs, .. } => format!("{} field cells + {} field pairs of {}", cells.len(), pairs.len(), base.desc),
             JobKind::Cuts { base, cuts, variants } => format!("{} cuts (+{} reader variants) of {}", cuts.len(), variants.len(), base.desc),
             JobKind::ErrMatrix { base, n } => format!("error matrix {} offsets x {} kinds of {}", n, ERR_KINDS.len(), base.desc),
             JobKind::Special { items } => format!("{} special scenarios", items.len()),
@@ -504,11 +550,17 @@ impl Job {
         }
         match &self.kind {
             JobKind::Empty { .. } => {}
-            JobKind::Cells { base, cells, fields } => {
-                let (fi, v) = cells[sub as usize];
+            JobKind::Cells { base, cells, pairs, fields } => {
                 p.base_desc = base.desc.clone();
                 p.base = base.bytes.clone();
-                p.edits.push(faults::field_edit(&base.bytes, &fields[fi], v));
+                if (sub as usize) < cells.len() {
+                    let (fi, v) = cells[sub as usize];
+                    p.edits.push(faults::field_edit(&base.bytes, &fields[fi], v));
+                } else {
+                    for (fi, v) in pairs[sub as usize - cells.len()] {
+                        p.edits.push(faults::field_edit(&base.bytes, &fields[fi], v));
+                    }
+                }
                 p.wrapper = if mode == "mem" { Wrapper::Sim } else { Wrapper::Slice };
             }
             JobKind::Cuts { base, cuts, variants } => {
@@ -690,7 +742,7 @@ impl Job {
 pub fn gen_special(rseed: u64, bug: &str, scale: usize, r: &mut Rng) -> Base {
     let mut sr = Rng::sub(rseed, "spec");
     let mut s = spec::gen_spec(&mut sr);
-    if scale > 100 {
+    if scale > 100 || bug == "bomb-with-links" {
         // keep the rest of the sprite small so the file stays within the size cap
         s.durations.truncate(2);
         s.cels.retain(|c| (c.frame as usize) < 2);
